@@ -655,6 +655,7 @@ class IStream:
             if oldinit is not None:
                 st.scal[f'init:{l.vid}'] = BoolV(Or(oldinit.t, attempted))
         if ct.kind == 'int':
+            from vf.state import range_fact
             st.assume(range_fact(got, ct))
         st.env[l.vid] = cur
         ex.logw(('v', l.vid))
